@@ -4,8 +4,8 @@ use super::dgram::*;
 use super::lowpan::*;
 use super::world::*;
 use smoltcp::iface::SocketHandle;
-use smoltcp::socket::tcp;
-use smoltcp::wire::{IpEndpoint, IpListenEndpoint};
+use smoltcp::socket::{raw, tcp};
+use smoltcp::wire::{IpEndpoint, IpListenEndpoint, IpProtocol, IpVersion};
 use vkit::indep::*;
 use vkit::runner::Fail;
 use vkit::sim::tcpbed::prf_bytes;
@@ -13,6 +13,9 @@ use vkit::{Ctx, Src};
 
 struct TcpApp {
     h: [SocketHandle; 2],
+    /// raw TCP sockets: the receiver's view of whole decompressed datagrams
+    raw: [SocketHandle; 2],
+    raw_checked: u64,
     seeds: [u64; 2],
     /// octets side i wants to send
     len: [usize; 2],
@@ -67,6 +70,29 @@ impl App for TcpApp {
             }
             self.recvd[side] += n;
             ctx.count("tcp_octets_delivered", n as u64);
+        }
+        // what the receiver's raw socket is given is, header included, a datagram the other node transmitted
+        if w.lowpan {
+            let mut got = vec![];
+            {
+                let r = w.s[side].node.sockets.get_mut::<raw::Socket>(self.raw[side]);
+                while let Ok(d) = r.recv() {
+                    got.push(d.to_vec());
+                }
+            }
+            for g in got {
+                if w.tainted {
+                    continue;
+                }
+                if !w.s[from].an.dgrams.iter().any(|d| d.complete && d.bytes == g) {
+                    let near = w.s[from].an.dgrams.iter().filter(|d| d.complete && d.bytes.len() == g.len()).map(|d| first_diff(&g, &d.bytes)).last().unwrap_or("no datagram of that length was sent".into());
+                    return Err(Fail::new(
+                        "ingress:decompressed-datagram-differs-from-what-was-sent",
+                        format!("node {}: a raw socket received an IPv6 datagram of {} octets (next header {}, hop limit {}) that equals no datagram node {} transmitted; {}", side, g.len(), g.get(6).copied().unwrap_or(0), g.get(7).copied().unwrap_or(0), from, near),
+                    ));
+                }
+                self.raw_checked += 1;
+            }
         }
         // every reconstructed datagram is a valid TCP segment between the two addresses with the configured hop limit
         if w.lowpan {
@@ -133,6 +159,12 @@ fn run(cfg: &Cfg, lowpan: bool, mtu: usize, ai: usize, bi: usize, ports: (u16, u
         s.set_hop_limit(Some(hop));
         h.push(w.s[i].node.sockets.add(s));
     }
+    let mut rawh = vec![];
+    for i in 0..2 {
+        let rx = raw::PacketBuffer::new(vec![raw::PacketMetadata::EMPTY; 64], vec![0u8; 65_536]);
+        let tx = raw::PacketBuffer::new(vec![raw::PacketMetadata::EMPTY; 1], vec![0u8; 64]);
+        rawh.push(w.s[i].node.sockets.add(raw::Socket::new(Some(IpVersion::Ipv6), Some(IpProtocol::Tcp), rx, tx)));
+    }
     let (la, ra) = (cfg.n[0].addrs[ai], cfg.n[1].addrs[bi]);
     w.s[1].node.sockets.get_mut::<tcp::Socket>(h[1]).listen(IpListenEndpoint { addr: None, port: ports.1 }).expect("listen");
     {
@@ -140,7 +172,7 @@ fn run(cfg: &Cfg, lowpan: bool, mtu: usize, ai: usize, bi: usize, ports: (u16, u
         let cx = n.iface.context();
         n.sockets.get_mut::<tcp::Socket>(h[0]).connect(cx, IpEndpoint::new(ipa(&ra), ports.1), IpEndpoint::new(ipa(&la), ports.0)).expect("connect");
     }
-    let mut app = TcpApp { h: [h[0], h[1]], seeds, len: lens, written: [0; 2], recvd: [0; 2], closed: [false; 2], hop, addrs: [la, ra], checked: [0; 2], segments: 0, fragmented_segments: 0, max_frags: 0 };
+    let mut app = TcpApp { h: [h[0], h[1]], raw: [rawh[0], rawh[1]], raw_checked: 0, seeds, len: lens, written: [0; 2], recvd: [0; 2], closed: [false; 2], hop, addrs: [la, ra], checked: [0; 2], segments: 0, fragmented_segments: 0, max_frags: 0 };
     let done = w.pump(&mut app, src, faults, ctx, 6000, 400_000)?;
     Ok((app, w, done))
 }
@@ -188,6 +220,7 @@ pub fn tcp_case(src: &mut Src, ctx: &mut Ctx) -> Result<(), Fail> {
         ctx.label("tcp:segments-fragmented");
     }
     ctx.count("tcp_segments", app.segments);
+    ctx.count("raw_socket_datagrams_compared", app.raw_checked);
     if done {
         ctx.label("tcp:completed");
         ctx.nontrivial = app.recvd[0] + app.recvd[1] > 0;
